@@ -544,6 +544,15 @@ func run(c Case) pbt.Verdict {
 				// an older (or never activated) conn of the same peer and torrent: must not touch the current one
 				staleDeletes++
 				r.classes["stale-delete-vs-replaced-conn"] = true
+				still := false
+				for _, a := range r.st.ActiveConns() {
+					if a == r.active[k] {
+						still = true
+					}
+				}
+				if !still {
+					return pbt.Fail("DeleteActive of another connection removed the current connection of the same peer and torrent\nstep %d (%s): current %s is gone", step, what, r.connName(r.active[k]))
+				}
 			case r.status[k] == stPending:
 				r.classes["delete-active-on-pending-noop"] = true
 			}
